@@ -2,7 +2,7 @@
    generated case files, `mismatches` (model run vs observed run), `spec_violations` (the property's boolean oracle on
    the observed logs and states alone).  Executable definitions only. *)
 From Coq Require Import List ZArith Bool String Ascii.
-From Qryn Require Import model.Rotate.
+From Qryn Require Import model.Rotate model.RotateCfg.
 Import ListNotations.
 Open Scope string_scope.
 Open Scope Z_scope.
@@ -21,8 +21,18 @@ Definition ocall_eqb (a b : ocall) : bool :=
   Bool.eqb (o_ok a) (o_ok b).
 
 (* one observed run: configuration, fault, and what the harness saw *)
+(* how the run was started: maintenance.Rotate directly, RotateAll over configuration objects (rotateDB for each), or
+   portCHEnv on an environment (and the DATABASE_DATA a configuration file left) followed by RotateAll; for the last
+   one the harness reports whether portCHEnv returned an error and DATABASE_DATA afterwards *)
+Inductive rkind :=
+| KDirect
+| KAll (os : list dbobj)
+| KEnv (e : environ) (preset : list dbobj) (oerr : bool) (oout : list dbobj).
+
 Record orun := {
   r_cfg : config; r_fault : fault;
+  r_kind : rkind;
+  r_parse : list (string * option Z);     (* what time.ParseDuration returned for the timeouts of this run *)
   r_log : list ocall; r_err : bool;
   r_ttl : list string;          (* TTL of the seven tables after the run, in the order of all_tables *)
   r_policy : list string;
@@ -52,11 +62,29 @@ Definition state_eqb (d : db) (r : orun) : bool :=
   forallb (fun g => String.eqb (recd d g) (recd o g)) groups &&
   (Nat.eqb (List.length (r_ttl r)) 7) && (Nat.eqb (List.length (r_policy r)) 7).
 
+Fixpoint lookup_parse (tbl : list (string * option Z)) (s : string) : option Z :=
+  match tbl with [] => None | (k, v) :: r => if String.eqb s k then v else lookup_parse r s end.
+Definition elem_eqb (a b : ttl_elem) : bool := String.eqb (e_timeout a) (e_timeout b) && String.eqb (e_move_to a) (e_move_to b).
+Definition dbobj_eqb (a b : dbobj) : bool :=
+  String.eqb (o_cluster a) (o_cluster b) && list_eqb elem_eqb (o_ttl_policy a) (o_ttl_policy b) &&
+  (o_ttl_days a =? o_ttl_days b) && String.eqb (o_storage_policy a) (o_storage_policy b).
+
+(* the model's run: rendered log (oldest first), success, database afterwards, agreement on portCHEnv's result *)
+Definition model_run (d : db) (r : orun) : list ocall * bool * db * bool :=
+  match r_kind r with
+  | KDirect => let '(w, ok) := run (r_cfg r) (r_fault r) d in (map (render (r_cfg r)) (rev (w_log w)), ok, w_db w, true)
+  | KAll os => let '(l, ok, d') := rotate_all (lookup_parse (r_parse r)) os (r_fault r) d in (l, ok, d', true)
+  | KEnv e preset oerr oout =>
+    match port_ch_env e preset with
+    | None => ([], false, d, oerr)
+    | Some os => let '(l, ok, d') := rotate_all (lookup_parse (r_parse r)) os (r_fault r) d in
+                 (l, ok, d', negb oerr && list_eqb dbobj_eqb os oout)
+    end
+  end.
+
 Definition run_matches (d : db) (r : orun) : bool * db :=
-  let '(w, ok) := run (r_cfg r) (r_fault r) d in
-  (list_eqb ocall_eqb (map (render (r_cfg r)) (rev (w_log w))) (r_log r) &&
-   Bool.eqb (negb ok) (r_err r) && state_eqb (w_db w) r,
-   w_db w).
+  let '(l, ok, d', agree) := model_run d r in
+  (list_eqb ocall_eqb l (r_log r) && Bool.eqb (negb ok) (r_err r) && state_eqb d' r && agree, d').
 
 Fixpoint runs_match (d : db) (rs : list orun) : bool :=
   match rs with
@@ -152,9 +180,36 @@ Fixpoint tiers_follow (minv : Z) (ds : list policy) (ns : list Z) : bool :=
     (Z.min s max_int32 <=? n) && (n <=? Z.max minv s) && tiers_follow minv ds' ns'
   | _, _ => false
   end.
+(* the disks named by the TO DISK '<name>' clauses of the text, and the n of its toIntervalDay(n) *)
+Fixpoint upto_quote (s : string) : string :=
+  match s with
+  | EmptyString => ""
+  | String c r => if Ascii.eqb c "'" then "" else String c (upto_quote r)
+  end.
+Fixpoint disks_in (s : string) : list string :=
+  match s with
+  | EmptyString => []
+  | String _ r =>
+    match drop_prefix "TO DISK '" s with
+    | Some rest => upto_quote rest :: disks_in r
+    | None => disks_in r
+    end
+  end.
+Fixpoint day_intervals (s : string) : list Z :=
+  match s with
+  | EmptyString => []
+  | String _ r =>
+    match drop_prefix "toIntervalDay(" s with
+    | Some rest => parse_int rest :: day_intervals r
+    | None => day_intervals r
+    end
+  end.
 Definition tier_cfg_obs (cfg : config) (o : ocall) : bool :=
   match obs_ttl o with
-  | Some (tn, e) => tiers_follow (name_min tn) (days cfg) (intervals e)
+  | Some (tn, e) =>
+    tiers_follow (name_min tn) (days cfg) (intervals e) &&
+    list_eqb String.eqb (disks_in e) (filter (fun x => negb (String.eqb x "")) (map p_disk (days cfg))) &&
+    list_eqb Z.eqb (day_intervals e) [drop_days cfg]
   | None => true
   end.
 
@@ -188,21 +243,62 @@ Definition config_eqb (a b : config) : bool :=
   list_eqb policy_eqb (days a) (days b) && (drop_days a =? drop_days b) &&
   String.eqb (storage_policy a) (storage_policy b).
 
+(* the configurations a run is to apply, as the specification reads the run's input: the direct call's own, or per
+   configuration object cluster / parsed timeouts / days / policy (stopping at the first timeout that does not
+   parse: flag = the run must report an error), for an environment what SAMPLES_DAYS / STORAGE_POLICY /
+   CLUSTER_NAME say *)
+Fixpoint cfgs_of (parse : string -> option Z) (os : list dbobj) : list config * bool :=
+  match os with
+  | [] => ([], false)
+  | o :: r => match config_of parse o with
+              | None => ([], true)
+              | Some c => let '(l, f) := cfgs_of parse r in (c :: l, f)
+              end
+  end.
+Definition spec_cfgs (r : orun) : list config * bool :=
+  match r_kind r with
+  | KDirect => ([r_cfg r], false)
+  | KAll os => cfgs_of (lookup_parse (r_parse r)) os
+  | KEnv e preset _ _ =>
+    match port_ch_env e preset with
+    | None => ([], true)
+    | Some os => cfgs_of (lookup_parse (r_parse r)) os
+    end
+  end.
+Definition env_ok (r : orun) : bool :=
+  match r_kind r with
+  | KEnv e preset oerr oout =>
+    match port_ch_env e preset with
+    | None => oerr
+    | Some os => negb oerr && list_eqb dbobj_eqb os oout
+    end
+  | _ => true
+  end.
+Definition is_nil {A} (l : list A) : bool := match l with [] => true | _ => false end.
+
 Fixpoint runs_ok (start_consistent : bool) (prev_done : option config) (rs : list orun) : bool :=
   match rs with
   | [] => true
   | r :: rest =>
+    let '(cfgs, failed) := spec_cfgs r in
     forallb tier_min_obs (r_log r) &&
-    forallb (tier_cfg_obs (r_cfg r)) (r_log r) &&
+    (* every TTL statement carries the tiers, disks and days of one of the run's configurations *)
+    forallb (fun o => match obs_ttl o with None => true | Some _ => existsb (fun c => tier_cfg_obs c o) cfgs end) (r_log r) &&
+    (* a timeout that does not parse / an environment that is refused: error; nothing to apply: nothing issued *)
+    (negb failed || r_err r) && (negb (is_nil cfgs) || is_nil (r_log r)) && env_ok r &&
     record_after_all_obs [] (r_log r) &&
-    (r_err r || negb start_consistent || applied_b (r_cfg r) (obs_db r)) &&
-    match prev_done with
-    | Some c => negb (config_eqb c (r_cfg r)) || forallb o_q (r_log r)
-    | None => true
-    end &&
-    (* an uninterrupted run never fails *)
-    (match r_fault r with None => negb (r_err r) | Some _ => true end) &&
-    runs_ok start_consistent (if r_err r then None else Some (r_cfg r)) rest
+    (* an uninterrupted run of acceptable input never fails *)
+    (match r_fault r with None => failed || negb (r_err r) | Some _ => true end) &&
+    match cfgs, failed with
+    | [c], false =>
+      (r_err r || negb start_consistent || applied_b c (obs_db r)) &&
+      match prev_done with
+      | Some c0 => negb (config_eqb c0 c) || forallb o_q (r_log r)
+      | None => true
+      end &&
+      runs_ok start_consistent (if r_err r then None else Some c) rest
+    | _, _ => runs_ok start_consistent None rest
+    end
   end.
 Definition spec_violation (c : case) : bool := negb (runs_ok (consistent_b (init_db c)) None (c_runs c)).
 
